@@ -23,7 +23,8 @@ Definition judge (c : case) : verdict :=
      | _ => true
      end, v_violation 1);
     (negb ((outcome c =? 0) || (outcome c =? 1)) || pair_ok c, v_violation 2);      (* never a mismatched pair *)
-    (match kind c with 0 => negb (outcome c =? 2) | _ => true end, v_violation 3);  (* a missing file is simply regenerated *)
+    (match kind c with 0 => negb (outcome c =? 2) && (negb (outcome c =? 0) || negb (file_mode c =? 0)) | _ => true end, v_violation 3);
+                                                                       (* a missing file is simply regenerated - and is there afterwards *)
     (owner_only (file_mode c) && forallb owner_only (dir_modes c), v_violation 4);  (* owner-only file and directories *)
     (* the decision agrees with the model given what loading said *)
     (match kind c, load_cls c with
